@@ -324,9 +324,9 @@ theorem affinity_outside_grammar :
 
 /-! ### closing parenthesis -/
 
-theorem closeGo_balanced : ∀ (body : Str) (d d' : Nat) (prev : Char) (idx : Nat) (tl : Str),
+theorem closeGo_balanced (cst : Nat) : ∀ (body : Str) (d d' : Nat) (prev : Char) (idx : Nat) (tl : Str),
     Spec.Ddl.balance d body = some d' →
-    ∃ prev', closeGo prev d 0 0 idx (body ++ tl) = closeGo prev' d' 0 0 (idx + body.length) tl
+    ∃ prev', closeGo prev d 0 cst 0 idx (body ++ tl) = closeGo prev' d' 0 cst 0 (idx + body.length) tl
   | [], d, d', prev, idx, tl, h => by
       simp [Spec.Ddl.balance] at h
       subst h
@@ -336,7 +336,7 @@ theorem closeGo_balanced : ∀ (body : Str) (d d' : Nat) (prev : Char) (idx : Na
       by_cases h1 : c = '('
       · subst h1
         simp only [beq_self_eq_true, if_true] at h
-        obtain ⟨p, hp⟩ := closeGo_balanced cs (d + 1) d' '(' (idx + 1) tl h
+        obtain ⟨p, hp⟩ := closeGo_balanced cst cs (d + 1) d' '(' (idx + 1) tl h
         refine ⟨p, ?_⟩
         simp only [List.cons_append, closeGo, ne_eq, not_true_eq_false, if_false, beq_self_eq_true, if_true]
         rw [hp]; simp [Nat.add_assoc, Nat.add_comm 1]
@@ -349,7 +349,7 @@ theorem closeGo_balanced : ∀ (body : Str) (d d' : Nat) (prev : Char) (idx : Na
           · simp [hd] at h
           · have ed : (d == 0) = false := by simpa using hd
             simp only [ed] at h
-            obtain ⟨p, hp⟩ := closeGo_balanced cs (d - 1) d' ')' (idx + 1) tl (by simpa using h)
+            obtain ⟨p, hp⟩ := closeGo_balanced cst cs (d - 1) d' ')' (idx + 1) tl (by simpa using h)
             refine ⟨p, ?_⟩
             simp only [List.cons_append, closeGo, ne_eq, not_true_eq_false, if_false, e1, beq_self_eq_true, if_true, ed]
             rw [hp]; simp [Nat.add_assoc, Nat.add_comm 1]
@@ -360,14 +360,14 @@ theorem closeGo_balanced : ∀ (body : Str) (d d' : Nat) (prev : Char) (idx : Na
           · simp only [h3] at h
             simp only [Bool.or_eq_true, not_or, Bool.not_eq_true] at h3
             obtain ⟨⟨⟨⟨⟨a1, a2⟩, a3⟩, a4⟩, a5⟩, a6⟩ := h3
-            obtain ⟨p, hp⟩ := closeGo_balanced cs d d' c (idx + 1) tl (by simpa using h)
+            obtain ⟨p, hp⟩ := closeGo_balanced cst cs d d' c (idx + 1) tl (by simpa using h)
             refine ⟨p, ?_⟩
             simp only [List.cons_append, closeGo, ne_eq, not_true_eq_false, if_false, e1, e2, a1, a2, a3, a4, a5, a6]
             rw [hp]; simp [Nat.add_assoc, Nat.add_comm 1]
 
 theorem closing_paren_balanced (body rest : Str) (h : Spec.Ddl.balance 0 body = some 0) :
     closingParen ('(' :: body ++ ')' :: rest) = .ok (body.length + 1) := by
-  obtain ⟨p, hp⟩ := closeGo_balanced body 0 0 '(' 1 (')' :: rest) h
+  obtain ⟨p, hp⟩ := closeGo_balanced 0 body 0 0 '(' 1 (')' :: rest) h
   simp only [List.cons_append, closingParen, beq_self_eq_true, if_true]
   rw [hp]
   simp [closeGo, Nat.add_comm]
@@ -381,15 +381,15 @@ theorem points_step (prev c : Char) (cs : Str) (idx i : Nat)
   rw [this, List.getElem?_cons_succ]
   exact h2
 
-theorem closeGo_points (prev : Char) (emb cm lit idx : Nat) (l : Str) (hidx : 1 ≤ idx) :
-    ∀ i, closeGo prev emb cm lit idx l = .ok i → idx ≤ i + 1 ∧ (prev :: l)[i + 1 - idx]? = some ')' := by
-  fun_induction closeGo prev emb cm lit idx l
+theorem closeGo_points (prev : Char) (emb cm cst lit idx : Nat) (l : Str) (hidx : 1 ≤ idx) :
+    ∀ i, closeGo prev emb cm cst lit idx l = .ok i → idx ≤ i + 1 ∧ (prev :: l)[i + 1 - idx]? = some ')' := by
+  fun_induction closeGo prev emb cm cst lit idx l
   all_goals intro i h
   all_goals first
     | (rename_i ih; exact points_step _ _ _ _ _ (ih (by omega) i h))
     | (cases h; done)
     | skip
-  · rename_i prev' _ _ _ idx' hp
+  · rename_i prev' _ _ _ _ idx' hp
     cases h
     have : prev' = ')' := by simpa using hp
     subst this
@@ -413,7 +413,7 @@ theorem closing_paren_points (s : Str) (i : Nat) (h : closingParen s = .ok i) : 
       by_cases hc : c = '('
       · subst hc
         simp only [beq_self_eq_true, if_true] at h
-        have := (closeGo_points '(' 0 0 0 1 cs (by omega) i h).2
+        have := (closeGo_points '(' 0 0 0 0 1 cs (by omega) i h).2
         simpa using this
       · have : (c == '(') = false := by simpa using hc
         simp [this] at h
@@ -548,12 +548,12 @@ theorem takeWhile_all (p : Char → Bool) : ∀ a : Str, (∀ c ∈ a, p c = tru
   | c :: cs, h => by
       simp [List.takeWhile, h c (by simp), takeWhile_all p cs (fun d hd => h d (by simp [hd]))]
 
-theorem openQuote_ident (c : Char) (h : isIdentChar c = true) : openQuoteClose c = none := by
+theorem quotedName_ident (c : Char) (tl : Str) (h : isIdentChar c = true) : quotedName (c :: tl) = none := by
   have h1 := ident_ne c '`' h (by decide)
   have h2 := ident_ne c '[' h (by decide)
   have h3 := ident_ne c '\'' h (by decide)
   have h4 := ident_ne c '"' h (by decide)
-  simp [openQuoteClose, h1, h2, h3, h4]
+  simp [quotedName, isQuoteChar, h1, h2, h3, h4]
 
 theorem nameAndRest_two (a b : Str) (sep : Char) (hsep : isSpace sep = true) (ha : Ident a) (hane : a ≠ []) (hb : Ident b) :
     columnNameAndRest (a ++ sep :: b) = .ok (a, b) := by
@@ -562,7 +562,7 @@ theorem nameAndRest_two (a b : Str) (sep : Char) (hsep : isSpace sep = true) (ha
   cases a with
   | nil => exact absurd rfl hane
   | cons c cs =>
-      have hq := openQuote_ident c (ha c (by simp))
+      have hq := quotedName_ident c (cs ++ sep :: b) (ha c (by simp))
       have e1 : (c :: (cs ++ sep :: b)).take (c :: cs).length = c :: cs := by
         rw [show c :: (cs ++ sep :: b) = (c :: cs) ++ sep :: b by rfl, List.take_left']
         rfl
@@ -581,7 +581,7 @@ theorem nameAndRest_one (a : Str) (ha : Ident a) (hane : a ≠ []) : columnNameA
   cases a with
   | nil => exact absurd rfl hane
   | cons c cs =>
-      have hq := openQuote_ident c (ha c (by simp))
+      have hq := quotedName_ident c cs (ha c (by simp))
       simp only [columnNameAndRest, hq, htw]
       simp
 
@@ -972,22 +972,5 @@ theorem split_render (ds : List ColDef) (hne : ds ≠ []) (h : ∀ d ∈ ds, Sim
   refine ⟨st, by simpa using h1, h3, ?_, ?_⟩
   · rw [List.map_reverse, h4]; simp
   · rw [List.map_reverse, h5]; simp
-
-/-- SQL spelling of a name inside double quotes: every `"` doubled -/
-def escapeDq : Str → Str
-  | [] => []
-  | c :: cs => if c == '"' then '"' :: '"' :: escapeDq cs else c :: escapeDq cs
-
-theorem columns_counterexample :
-    ¬ ∀ (name : Str), name ≠ [] →
-      ∃ col, parseColumn ('"' :: escapeDq name ++ ['"']) = .ok col ∧ col.name = name := by
-  intro h
-  obtain ⟨col, h1, h2⟩ := h ['x', '"', 'y'] (by decide)
-  have h3 : (parseColumn ('"' :: escapeDq ['x', '"', 'y'] ++ ['"'])).toOption.map (·.name) = some ['x'] := by
-    decide +kernel
-  rw [h1] at h3
-  simp only [Except.toOption, Option.map_some, Option.some.injEq] at h3
-  rw [h2] at h3
-  exact absurd h3 (by decide)
 
 end SqliteDissect.Proofs.Schema
